@@ -66,6 +66,8 @@ class AbstractAst:
         self.var_io_dict = dict()
         self.const_type_dict = dict()
         self.const_val_dict = dict()
+        # the data last supplied for each input variable
+        self.inputs = dict()
         self.results = dict()
         self.phi_name_to_node_dict = dict()
 
@@ -212,6 +214,9 @@ class AbstractAst:
         self.vars.add(var)
 
     def get_value(self, phi_name):
+        if phi_name not in self.phi_name_to_node_dict and phi_name in self.inputs:
+            # a declared variable that no formula reads: the data supplied for it
+            return self.inputs[phi_name]
         node = self.phi_name_to_node_dict[phi_name]
         return self.results[node]
 
